@@ -366,9 +366,15 @@ class Findings:
     def match(self, prop, key):
         """Returns the 'known' entry that lists this violation key, if any ('fixed' entries suppress nothing)."""
         for e in self.entries:
-            if e.get("status") != "known" or e.get("property") != prop:
+            if e.get("status") != "known":
                 continue
-            for pat in e.get("keys", []):
+            if e.get("property") == prop:
+                for pat in e.get("keys", []):
+                    if re.fullmatch(pat, key):
+                        return e
+            # an assertion site that identifies a known defect of another property: the crash is attributed to that
+            # finding (printed as KNOWN-FINDING with its own property id) instead of failing this property's check
+            for pat in e.get("crash_keys_any_property", []):
                 if re.fullmatch(pat, key):
                     return e
         return None
@@ -488,8 +494,8 @@ class Check:
         os.makedirs(os.path.join(VERIF, "evidence"), exist_ok=True)
         os.makedirs(os.path.join(VERIF, "replays"), exist_ok=True)
         for e in self.findings.entries:
-            if e.get("status") == "known" and e.get("property") == self.prop and e["id"] in self.known:
-                print("KNOWN-FINDING: property=%s %s (%s; seen %d times in this run)" % (self.prop, e["id"], e.get("what", ""), self.known[e["id"]]))
+            if e.get("status") == "known" and e["id"] in self.known:
+                print("KNOWN-FINDING: property=%s %s (%s; seen %d times in this run)" % (e.get("property"), e["id"], e.get("what", "")[:600], self.known[e["id"]]))
         rc = 0
         replay_paths = []
         seen_keys = set()
